@@ -159,6 +159,45 @@ def signature(c, o, msg):
     return None
 
 
+# ---------------------------------------------------------------- handshake deadline (stack level)
+HS_IVL = 300
+
+
+def hs_cases():
+    g = E.greeting("NULL", 0)
+    out = []
+    for be in ("tokio", "uring"):
+        o = {"HANDSHAKE_IVL": HS_IVL}
+        if be == "uring":
+            o["IO_URING_SESSION_ENABLED"] = 1
+        base = {"k": "rawpeer", "stype": "PULL", "opts": o, "expect_msgs": 0, "recv_timeout_ms": 100, "backend": be}
+        out.append(dict(base, name="silent", writes=[], gap_ms=0, hold_ms=1500))
+        out.append(dict(base, name="five_bytes_then_silence", writes=[[E.raw([b])] for b in g[:5]], gap_ms=0, hold_ms=1500))
+        # one byte every 200 ms: each read arrives inside a per-read timeout of 300 ms
+        out.append(dict(base, name="drip", writes=[[E.raw([b])] for b in g[:12]], gap_ms=200, hold_ms=300))
+    return out
+
+
+def hs_strip(c):
+    return {k: c[k] for k in ("k", "stype", "opts", "writes", "gap_ms", "expect_msgs", "recv_timeout_ms", "hold_ms")}
+
+
+def hs_oracle(c, o):
+    rows = o["rows"]
+    if rows and rows[0][0] in (95, 96, 97):
+        return "scenario crashed or hung (code %d)" % rows[0][0]
+    if not o.get("closed_by_socket"):
+        return ("peer '%s' did not complete the handshake within HANDSHAKE_IVL=%d ms and was NOT disconnected (backend %s)"
+                % (c["name"], HS_IVL, c["backend"]))
+    if o["eof_ms"] > HS_IVL + 900:
+        return "peer '%s' was disconnected only after %d ms (HANDSHAKE_IVL=%d, backend %s)" % (c["name"], o["eof_ms"], HS_IVL, c["backend"])
+    return None
+
+
+def hs_signature(c, o, msg):
+    return "C07:%s:no-handshake-deadline" % c["backend"]
+
+
 def main(argv):
     tier, seed = C.tier_and_seed(argv)
     res = C.Result(PROP, tier, seed)
@@ -182,4 +221,17 @@ def main(argv):
             for r in o["rows"]:
                 if r[0] == 8:
                     res.count("err_class:%d" % r[1])
-    return res.finish(assumptions=["engine level; session-level handshake deadline and isolation are checked by stack scenarios (C17, thorough tier)"])
+    hcs = hs_cases()
+    hobs, hlog = C.run_harness("stack", [hs_strip(c) for c in hcs], PROP, tag="hs")
+    if hobs is None:
+        res.obligation(False, "handshake-deadline scenarios could not run: " + str(hlog)[-500:])
+    else:
+        res.evaluations += len(hcs)
+        for c, o in zip(hcs, hobs):
+            res.count("hs:%s:%s:%s" % (c["backend"], c["name"], "closed@%dms" % o["eof_ms"] if o.get("closed_by_socket") else "alive"))
+            msg = hs_oracle(c, o)
+            if msg:
+                sig = hs_signature(c, o, msg)
+                res.violation({"property": PROP, "kind": "implementation violates property oracle (stack level)", "what": msg,
+                               "case": c, "impl_obs": o, "harness": "stack", "signature": sig}, found_input=True, signature=sig)
+    return res.finish(assumptions=["handshake deadline: decision model Model/HsTimer.v tied by three raw-peer pacing scenarios per backend (timer law of tokio trusted); isolation of the owning socket is C17's subject"])
